@@ -30,9 +30,13 @@ class DenormInit(Unit):
     target = BASE + "::Denormalize.init"
     props = ("C17",)
 
+    def configs(self):
+        yield "default", dict(sort=REAL)
+        yield "integer-typed bounds", dict(sort=INT)        # e.g. a horizon in steps: the midpoint of [0, 5] is 2.5, not 2
+
     def run(self, ctx):
         from pyvc.interp import RaiseEx
-        mn, mx = tree("min"), tree("max")
+        mn, mx = tree("min", ctx.cfg["sort"]), tree("max", ctx.cfg["sort"])
         for a, b in zip(leaves(mn), leaves(mx)):
             ctx.require(a < b)
         cref = ctx.ex.module_global(ctx.repo.module(BASE), "Denormalize")
@@ -45,7 +49,13 @@ class DenormInit(Unit):
         ctx.ensure("returns a Denormalize with the bounds' tree structure (None leaves skipped)", z3.BoolVal(ok))
         if ok:
             for s, o, a, b in zip(leaves(ret.f["scale"]), leaves(ret.f["offset"]), leaves(mn), leaves(mx)):
-                ctx.ensure("offset = (min + max) / 2 and scale = (max - min) / 2 > 0, leafwise", z3.And(o == (a + b) / 2, s == (b - a) / 2, s > 0))
+                R_ = lambda t: z3.ToReal(t) if t.sort() == INT else t
+                o, s = R_(toz(o)), R_(toz(s))
+                ctx.ensure("C17 offset = (min + max) / 2 and scale = (max - min) / 2 > 0 exactly, leafwise (so that -1 maps to min and +1 to max, whatever the bounds' number type)",
+                           z3.And(o == (R_(a) + R_(b)) / 2, s == (R_(b) - R_(a)) / 2, s > 0))
+
+
+DenormInit.replay = lambda self, label, clause, probes, model: {"kind": "pure", "which": "denormalize_bounds"}
 
 
 class DenormAlgebra(Unit):
